@@ -312,3 +312,25 @@ def run_programs(pool, config, machine, mode, programs, want_log=False, timeout=
     for r in pool.run_jobs(jobs):
         out.append({'harness_error': r['harness_error']} if r.get('harness_error') else r['results'][0])
     return out
+
+
+def run_enum(pool, machine, mode, configs, programs, timeout=60.0, deadline=None, agg=None):
+    """Run every program of a finite enumeration under every configuration."""
+    jobs = []
+    meta = []
+    for config, _w in configs:
+        for p in programs:
+            item = {'program': p, 'want_sample': (p.get('block') == 0)}
+            jobs.append((config, {'machine': machine, 'mode': mode, 'items': [item], 'timeout': timeout}))
+            meta.append((config, item))
+    resp = pool.run_jobs(jobs, deadline=deadline)
+    agg = agg or Agg()
+    for (config, item), r in zip(meta, resp):
+        if r is None or r.get('skipped'):
+            agg.skipped += 1
+            continue
+        if r.get('harness_error'):
+            agg.harness_errors.append((config.label(), None, r['harness_error']))
+            continue
+        agg.add(config, {'program': item['program'], 'seed': None}, r['results'][0])
+    return agg
